@@ -448,8 +448,14 @@ func (m *mutSummary) compute(fn *ssa.Function, stack map[*ssa.Function]bool) {
 				if pi >= len(args) || len(sites) == 0 {
 					continue
 				}
-				s0 := sites[0]
-				record(args[pi], writeSite{Instr: s0.Instr, Fn: s0.Fn, Field: s0.Field, Via: append([]*ssa.Function{cal}, s0.Via...)})
+				seenF := map[*types.Var]bool{}
+				for _, s0 := range sites {
+					if seenF[s0.Field] || len(seenF) > 24 {
+						continue
+					}
+					seenF[s0.Field] = true
+					record(args[pi], writeSite{Instr: s0.Instr, Fn: s0.Fn, Field: s0.Field, Via: append([]*ssa.Function{cal}, s0.Via...)})
+				}
 			}
 			for g, sites := range m.global[cal] {
 				if len(sites) > 0 {
